@@ -120,13 +120,15 @@ namespace Nb
 theorem nat_eq_of_lt_iff {x y : Nat} (h : ∀ k, k < x ↔ k < y) : x = y := by
   have h1 := h x; have h2 := h y; omega
 
-@[simp] theorem rangeInts_length (a c : Int) (L : Nat) : (rangeInts a c L).length = L := by
+theorem rangeInts_length (a c : Int) (L : Nat) : (rangeInts a c L).length = L := by
   simp [rangeInts]
 
 theorem rangeInts_getElem (a c : Int) (L k : Nat) (h : k < (rangeInts a c L).length) :
     (rangeInts a c L)[k] = a + (k : Int) * c := by simp [rangeInts]
 
-@[simp] theorem rangeInts_zero (a c : Int) : rangeInts a c 0 = [] := rfl
+theorem rangeInts_zero (a c : Int) : rangeInts a c 0 = [] := rfl
+
+attribute [local simp] rangeInts_length rangeInts_zero
 
 theorem rangeInts_congr {a c a' c' : Int} {L L' : Nat} (hL : L = L')
     (h : ∀ k : Nat, k < L → a + (k : Int) * c = a' + (k : Int) * c') :
